@@ -301,9 +301,11 @@ def worker(argv):
             data = json.load(open(argv[argv.index('--replay') + 1]))
             mod.replay(rec, data['case'])
         else:
-            known_open, _ = load_known(pid)
+            known_open, known_fixed = load_known(pid)
             if shard == 0:
-                for k, f in known_open.items():
+                # witnesses of open findings (-> KNOWN-FINDING line while they reproduce) and of repaired ones
+                # (regression probes: a fixed entry suppresses nothing, so a returning defect is a VIOLATION)
+                for k, f in list(known_open.items()) + list(known_fixed.items()):
                     if f.get('witness') is not None:
                         try:
                             mod.replay(rec, f['witness'])
